@@ -76,7 +76,22 @@ def gen_outer(rng, inner, outs, facts):
                 targets.append(ast.Target(eg.expr(t2, 1), 'o%d' % j))
                 outs2.append(('o%d' % j, t2))
     where = eg.expr('bool', 1) if rng.chance(1, 2) else None
-    return ast.Select(targets, inner, where, None, None, None, None, None), outs2
+    keyable = [(n, t) for n, t in outs if t in ('int', 'str', 'Decimal', 'date', 'bool')]
+    if keyable and rng.chance(1, 4) and len({n for n, _ in outs}) == len(outs):
+        # grouped outer query: the second key is not selected (an invisible key that is a subquery column)
+        keys = rng.shuffle(keyable)[:2]
+        targets = [ast.Target(ast.Column(keys[0][0]), 'g0'), ast.Target(ast.Function('count', [ast.Asterisk()]), 'n')]
+        outs2 = [('g0', keys[0][1]), ('n', 'int')]
+        group = ast.GroupBy([ast.Column(n) for n, _ in keys], None)
+        order = [ast.OrderBy(ast.Column('g0'), ast.Ordering(rng.below(2))), ast.OrderBy(ast.Column('n'), ast.Ordering(rng.below(2)))]
+        return ast.Select(targets, inner, where, group, order, None, None, None), outs2
+    order = None
+    limit = None
+    if keyable and rng.chance(1, 2):
+        # ORDER BY subquery columns, selected or not
+        order = [ast.OrderBy(ast.Column(rng.choice(keyable)[0]), ast.Ordering(rng.below(2))) for _ in range(rng.range(1, 2))]
+        limit = rng.choice([None, None, 1, 3])
+    return ast.Select(targets, inner, where, None, order, None, limit, None), outs2
 
 
 def materialised_oracle(ctx, tables, inner, outer, outs):
@@ -103,7 +118,7 @@ def materialised_oracle(ctx, tables, inner, outer, outs):
 
 def run(ctx):
     rng = ctx.rng
-    ncases = 1500 if ctx.thorough() else 300
+    ncases = 30000 if ctx.thorough() else 300
     t = u = None
     for case in range(ncases):
         if ctx.stop():
@@ -140,8 +155,14 @@ def run(ctx):
             ty = rng.choice(['int', 'str', 'date', 'Decimal'])
             cols = [n for n, tt in gen_sql.STD_SCHEMA if tt == ty]
             inner_where = eg.expr('bool', 1) if rng.chance(1, 2) else (ast.Constant(False) if rng.chance(1, 4) else None)
+            inner_order = inner_limit = None
+            if rng.chance(1, 3):
+                # membership in the first rows of an ordered subquery: the order decides which rows those are
+                okey = rng.choice([n for n, tt in gen_sql.STD_SCHEMA if tt in ('int', 'str', 'date', 'Decimal')])
+                inner_order = [ast.OrderBy(ast.Column(okey), ast.Ordering(rng.below(2)))]
+                inner_limit = rng.range(1, 3)
             inner = ast.Select([ast.Target(ast.Column(rng.choice(cols)), None)], ast.Table('u'), inner_where,
-                               None, None, None, None, None)
+                               None, inner_order, None, inner_limit, None)
             cls = rng.choice([ast.In, ast.NotIn])
             left = ast.Column(rng.choice(cols)) if rng.chance(3, 4) else eg.expr(ty, 1)
             node = cls(left, inner)
